@@ -42,6 +42,8 @@ METAMODELS = {
     "single": "Model: 'only';",
     # match rules referring to a cycle of other match rules (the export renders match rules recursively)
     "match-cycle": "Model: v=Value w=Wrap; Value: 'v' Group; Group: '<' Inner '>' | ID; Inner: Group ('|' Group)*; Wrap: Value | Inner;",
+    # an abstract rule mixing a local class with a class of a REFERENCED language (registered as 'c29a' by the harness)
+    "referenced-language": "reference c29a as a\nModel: bs+=B; B: 'B' name=ID ('->' t=[Target])? ('~' o=[a.A])?; Target: B | a.A;",
     # grammar files importing each other: every class of every (also indirectly) imported grammar belongs to the metamodel
     "import-chain": {"import_chain": "import mid\nModel: bs+=B;", "mid": "import leaf\nB: 'b' name=ID c=C other=Abs;", "leaf": "C: 'c' name=ID; Abs: C | D; D: 'd' x=INT;"},
     "import-diamond": {"import_diamond": "import l\nimport r\nModel: ls+=L rs+=R;", "l": "import base\nL: 'l' t=T;", "r": "import base\nR: 'r' t=[T];",
@@ -150,7 +152,16 @@ def run_metamodel_case(name, via):
     else:
         with open(gf, "w") as f:
             f.write(g)
-    mm = metamodel_from_file(gf)
+    if name == "referenced-language":
+        from textx import clear_language_registrations, metamodel_from_str as _mfs, register_language
+
+        clear_language_registrations()
+        register_language("c29a", pattern="*.c29a", metamodel=_mfs("Model: a+=A; A: 'A' name=ID;"))
+    try:
+        mm = metamodel_from_file(gf)
+    finally:
+        if name == "referenced-language":
+            pass
     classes = [c for ns, members in mm.namespaces.items() if ns != "__base__" for c in members.values()]
     assert len(classes) >= (sum(len(re.findall(r"^\s*\w+\s*:|;\s*\w+\s*:", t)) for t in g.values()) if isinstance(g, dict) else 1)
     nonmatch = [c for c in classes if c._tx_type != "match"]
@@ -184,6 +195,8 @@ def run_metamodel_case(name, via):
         for c in nonmatch:
             if not re.search(r"^class %s\b" % re.escape(c._tx_fqn), out, re.M):
                 bad.append(("plantuml class line missing", c._tx_fqn))
+    if name == "referenced-language":
+        clear_language_registrations()
     return not bad, {"metamodel": name, "via": via, "failures": bad[:3], "output_tail": out[-300:] if bad else None}
 
 
